@@ -2130,6 +2130,11 @@ func (m *Machine) processQueue() Result {
 			// TODO optimize: check sub ctxs also on canceled txs
 			verifAt(m, "pq.beforeSubs")
 			m.processSubscriptions(t)
+		} else if !t.Mutation.IsCheck {
+			// canceled, but the queue tick has moved
+			for _, ch := range m.subs.ProcessWhenQueue(m.queueTick) {
+				closeSafe(ch)
+			}
 		}
 
 		t.CleanCache()
